@@ -32,6 +32,7 @@ const Row kRows[] = {
   {OP_ROTATION, {"rotation", C_ELEM, A_NONE, 0, true, false, false}},
   {OP_CASTRT, {"cast", C_ELEM, A_NONE, 0, true, false, false}},
   {OP_COEFFS, {"coeffs", C_ELEM, A_NONE, 0, true, false, false}},
+  {OP_DATAPTR, {"data()", C_ELEM, A_NONE, 0, true, false, false}},
 
   {OP_EXP, {"exp", C_TAN, A_NONE, 1, true, false, false}},
   {OP_RETRACT, {"retract", C_TAN, A_NONE, 1, true, false, false}},
